@@ -23,6 +23,7 @@ Fixpoint hcat (A B : mat) : mat :=
 Definition block4 (TL TR BL BR : mat) : mat := hcat TL TR ++ hcat BL BR.
 
 Definition zvec_eqb := zlist_eqb.
+Definition all_zero_l (v : list Z) : bool := forallb (fun x => x =? 0) v.
 Definition is_pm1 (x : Z) : bool := (x =? 1) || (x =? -1).
 
 (* ---------- 2-sum ---------- *)
@@ -123,7 +124,7 @@ Definition threesum (p : Z) (m1 n1 : nat) (M1 : mat) (m2 n2 : nat) (M2 : mat)
     if negb (all_zero_l (pick (colv m1 M1 z1) R1) && is_pm1 alpha && is_pm1 beta &&
              all_zero_l (pick (rowv M2 z2) C2) && is_pm1 gamma && is_pm1 delta &&
              (cik =? get M2 i2 k2) && (cil =? get M2 i2 l2) && (cjk =? get M2 j2 k2) && (cjl =? get M2 j2 l2) &&
-             (if p =? 3 then tu_bf 3 3 N else true)) then KErr
+             tu_bf 3 3 N) then KErr
     else
       match inv2 p cik cil cjk cjl with
       | None => KErr
@@ -135,5 +136,117 @@ Definition threesum (p : Z) (m1 n1 : nat) (M1 : mat) (m2 n2 : nat) (M2 : mat)
                                 let u := rk * w + rl * y in let v := rk * x + rl * z in
                                 map (fun ij => modulo_ternary (u * fst ij + v * snd ij) p) (combine Ci Cj)) R2 in
         KOk (block4 (submat M1 R1 C1) (zeros (m1 - 2) (n2 - 2)) Cm (submat M2 R2 C2))
+      end.
+
+(* ---------- dispatch on the kind of sum and the special-line lists ---------- *)
+(* kind: 2 = 2-sum, 3 = Delta-sum, 4 = Y-sum, 5 = 3-sum *)
+Definition ksum (kind p : Z) (m1 n1 : nat) (M1 : mat) (m2 n2 : nat) (M2 : mat)
+                (fsr fsc ssr ssc : list nat) : kres :=
+  if kind =? 2 then
+    match fsr, fsc, ssr, ssc with
+    | [r1], [], [], [c2] => twosum p m1 n1 M1 m2 n2 M2 (Some r1) None None (Some c2)
+    | [], [c1], [r2], [] => twosum p m1 n1 M1 m2 n2 M2 None (Some c1) (Some r2) None
+    | _, _, _, _ => KErr
+    end
+  else if kind =? 3 then
+    match fsr, fsc, ssr, ssc with
+    | [r1], [c1a; c1b], [r2], [c2a; c2b] => deltasum p m1 n1 M1 m2 n2 M2 r1 c1a c1b r2 c2a c2b
+    | _, _, _, _ => KErr
+    end
+  else if kind =? 4 then
+    match fsr, fsc, ssr, ssc with
+    | [r1a; r1b], [c1], [r2a; r2b], [c2] => ysum p m1 n1 M1 m2 n2 M2 r1a r1b c1 r2a r2b c2
+    | _, _, _, _ => KErr
+    end
+  else if kind =? 5 then
+    match fsr, fsc, ssr, ssc with
+    | [i1; j1], [k1; l1; z1], [z2; i2; j2], [k2; l2] => threesum p m1 n1 M1 m2 n2 M2 i1 j1 k1 l1 z1 z2 i2 j2 k2 l2
+    | _, _, _, _ => KErr
+    end
+  else KErr.
+
+Definition in_dom (p : Z) (M : mat) : bool := if p =? 2 then is_binary M else is_ternary M.
+Definition small (m n : nat) : bool := Nat.leb m 7 && Nat.leb n 7.
+
+Definition dcsr_o : dec (option (nat * nat * mat)) :=
+  h <- dbool ;; if h then (x <- dcsr_dense ;; dret (Some x)) else dret None.
+
+(* record (kcompose): kind p M1 M2 fsr fsc ssr ssc rc hasResult [csr] *)
+Definition judge_kcompose (rec : list Z) : Z :=
+  match (kind <- dZ ;; p <- dZ ;; x1 <- dmat ;; x2 <- dmat ;;
+         fsr <- dlist dnat ;; fsc <- dlist dnat ;; ssr <- dlist dnat ;; ssc <- dlist dnat ;;
+         rc <- dZ ;; res <- dcsr_o ;; dend (kind, p, x1, x2, fsr, fsc, ssr, ssc, rc, res)) rec with
+  | Some ((kind, p, (m1, n1, M1), (m2, n2, M2), fsr, fsc, ssr, ssc, rc, res), _) =>
+    if negb (((p =? 2) || (p =? 3)) && in_dom p M1 && in_dom p M2) then 0
+    else
+      match ksum kind p m1 n1 M1 m2 n2 M2 fsr fsc ssr ssc with
+      | KErr => if rc =? 0 then 142 else 0          (* malformed operands must be refused *)
+      | KOk M =>
+        if negb (rc =? 0) then 140
+        else match res with
+             | Some (m, n, R) =>
+               if negb (mat_eqb R M) then 141
+               else if (p =? 3) && small m n && small m1 n1 && small m2 n2 &&
+                       tu_bf m1 n1 M1 && tu_bf m2 n2 M2 && negb (tu_bf m n R) then 143
+               else 0
+             | None => 141
+             end
       end
-with all_zero_l_dummy := 0.
+  | None => 1
+  end.
+
+(* record (kdecomp):
+     kind p M | ok | eps beta gamma both | M1: rc csr rowsOrigin colsOrigin fsr fsc | M2: rc csr rowsOrigin colsOrigin ssr ssc
+     | compose: rc hasResult [csr]
+   origins are lists of Z with -1 for "none" (artificial line). *)
+Definition dcomp : dec (Z * option (nat * nat * mat) * list Z * list Z * list nat * list nat) :=
+  rc <- dZ ;; M <- dcsr_o ;; ro <- dlist dZ ;; co <- dlist dZ ;; sr <- dlist dnat ;; sc <- dlist dnat ;;
+  dret (rc, M, ro, co, sr, sc).
+
+Definition origins (orig : list Z) (keep : list nat) : list Z := map (fun i => nthZ orig i) keep.
+Definition is_perm_of (k : nat) (l : list Z) : bool :=
+  Nat.eqb (length l) k && forallb (fun x => (0 <=? x) && (x <? Z.of_nat k)) l &&
+  nodupn (map Z.to_nat l).
+
+(* the special lines that are removed from the components when the sum is formed *)
+Definition removed_rows (kind : Z) (first : bool) (sr : list nat) : list nat :=
+  if kind =? 5 then (if first then sr else firstn 1 sr) else sr.
+Definition removed_cols (kind : Z) (first : bool) (sc : list nat) : list nat :=
+  if kind =? 5 then (if first then skipn 2 sc else sc) else sc.
+
+Definition judge_kdecomp (rec : list Z) : Z :=
+  match (kind <- dZ ;; p <- dZ ;; x <- dmat ;; ok <- dZ ;; eps <- dZ ;; beta <- dZ ;; gamma <- dZ ;; both <- dbool ;;
+         c1 <- dcomp ;; c2 <- dcomp ;; rcc <- dZ ;; res <- dcsr_o ;;
+         dend (kind, p, x, ok, both, c1, c2, rcc, res)) rec with
+  | Some ((kind, p, (m, n, M), ok, both, (rc1, X1, ro1, co1, fsr, fsc), (rc2, X2, ro2, co2, ssr, ssc), rcc, res), _) =>
+    if negb (ok =? 1) then 0
+    else if negb (((p =? 2) || (p =? 3)) && in_dom p M) then 0
+    else if negb ((rc1 =? 0) && (rc2 =? 0)) then 150
+    else
+      match X1, X2 with
+      | Some (m1, n1, M1), Some (m2, n2, M2) =>
+        match ksum kind p m1 n1 M1 m2 n2 M2 fsr fsc ssr ssc with
+        | KErr => 151                                   (* the components do not have the documented shape *)
+        | KOk Mc =>
+          let orow := origins ro1 (keep_idx m1 (removed_rows kind true fsr)) ++
+                      origins ro2 (keep_idx m2 (removed_rows kind false ssr)) in
+          let ocol := origins co1 (keep_idx n1 (removed_cols kind true fsc)) ++
+                      origins co2 (keep_idx n2 (removed_cols kind false ssc)) in
+          if negb (is_perm_of m orow && is_perm_of n ocol) then 152
+          else if negb (mat_eqb Mc (submat M (map Z.to_nat orow) (map Z.to_nat ocol))) then 153
+          else if negb (rcc =? 0) then 154
+          else match res with
+               | Some (mr, nr, R) =>
+                 if negb (mat_eqb R Mc) then 155
+                 else if (p =? 3) && ((kind =? 2) || (((kind =? 3) || (kind =? 4)) && both &&
+                                                   Nat.leb 4 (length (keep_idx m1 (removed_rows kind true fsr)) + length (keep_idx n1 (removed_cols kind true fsc))) &&
+                                                   Nat.leb 4 (length (keep_idx m2 (removed_rows kind false ssr)) + length (keep_idx n2 (removed_cols kind false ssc))))) &&
+                         small m n && tu_bf m n M && negb (tu_bf m1 n1 M1 && tu_bf m2 n2 M2) then 156
+                 else 0
+               | None => 155
+               end
+        end
+      | _, _ => 150
+      end
+  | None => 1
+  end.
